@@ -65,6 +65,34 @@ def zombie(args):
         w.close()
 
 
+def match_over(args):
+    """The handler closes the remaining players from inside a disconnect event ("opponent left, match over"); the server is shut down k ticks later.
+    Clients closed by the server that are still in the pool when the loop ends have not been reported yet: each must get its disconnect event once."""
+    seed, k, leaver = args
+    import srvworld as SW
+    w = SW.ServerWorld(seed=seed, conn_timeout=2.0)
+    try:
+        for c in (1, 2, 3):
+            w.add_client(c, ("10.6.0.%d" % c, 7100 + c))
+        for t in range(60):
+            w.tick()
+        CONNECTED = w.C.ConnectionStatus.CONNECTED
+
+        def hook(client):
+            for other in list(w.ctxt.connections.values()):
+                if other is not client and other.status == CONNECTED:
+                    w.goodbye.add(other.addr)
+                    other.disconnect()
+        w.on_disconnect = hook
+        w.client_disconnect(leaver)
+        for t in range(k):
+            w.tick()
+        w.shutdown()
+        return w.ev
+    finally:
+        w.close()
+
+
 def run(ctx):
     ctx.level = "model_checking"
     ctx.rule = ("events of recorded executions of the real server loop judged by TLC against Trace_Server; distinct = handler events + datagrams in/out; "
@@ -87,6 +115,10 @@ def run(ctx):
     with ProcessPoolExecutor(min(8, len(zj))) as ex:
         ztr = list(ex.map(zombie, zj))
     SJ.judge_and_report(ctx, "C10", ztr, ["zombie kept alive by a copy every %d ticks" % j[1] for j in zj])
+    mj = [(ctx.seed, k, leaver) for k in range(1, 9 if q else 16) for leaver in ((3, 1) if q else (1, 2, 3))]
+    with ProcessPoolExecutor(min(8, len(mj))) as ex:
+        mtr = list(ex.map(match_over, mj))
+    SJ.judge_and_report(ctx, "C10", mtr, ["match over: client %d leaves, the handler closes the others, shutdown %d ticks later" % (j[2], j[1]) for j in mj])
     jobs = [(ctx.seed + i, 700 if q else 2500) for i in range(3 if q else 16)]
     with ProcessPoolExecutor(min(8, len(jobs))) as ex:
         traces = list(ex.map(token_collisions, jobs))
